@@ -194,6 +194,7 @@ type Sim struct {
 	CondWaits   uint64
 	Broadcasts  uint64
 	TicksSent   uint64
+	TickLog     []int64 // virtual instants at which a tick was delivered
 	TicksDrop   uint64
 	AutoAdv     uint64
 	StallsFired uint64
@@ -327,6 +328,8 @@ func taskExit(s *Sim, t *Task) {
 //go:norace
 func taskExit2(s *Sim, t *Task, r interface{}) {
 	t.state = stDone
+	t.fn = nil // the closure may be the last reference to what the task worked on
+	t.selChans = nil
 	if s.killed {
 		return
 	}
